@@ -230,6 +230,8 @@ class Exec:
         self.paths_cut = 0
         self.undecided_paths = 0
         self.feas_timeout_ms = 10000
+        self.div_lemma = False          # opt-in: 64-bit Div / Rem by a constant as fresh (q, r) with the defining facts (see binop)
+        self._pending_assumes = []
 
     # ------------------------------------------------------------ solver helpers
     def check(self, conds):
@@ -565,6 +567,22 @@ class Exec:
         if op == 'BitXor': return a ^ b
         if op in ('Shl', 'ShlUnchecked'): return a << (b & (a.size() - 1))
         if op in ('Shr', 'ShrUnchecked'): return (a >> (b & (a.size() - 1))) if sg else LShR(a, b & (a.size() - 1))
+        if op in ('Div', 'Rem') and getattr(self, 'div_lemma', False) and is_bv(a) and a.size() == 64 and z3.is_bv_value(simp(b)) and not z3.is_bv_value(simp(a)):
+            # opt-in (Exec.div_lemma): a 64-bit division by a constant stalls the bit-blaster; the quotient and remainder become fresh symbols tied to the
+            # dividend by the defining facts of Rust's truncating division: a = q*c + r, |r| < |c|, r = 0 or sign(r) = sign(a)  (c != 0, no MIN / -1: c is not -1)
+            c = simp(b); cv = c.as_signed_long() if sg else c.as_long()
+            if cv not in (0, -1):
+                # (q, r) are uniquely determined by the facts, so a separate pair per Div / Rem statement is consistent; the facts join the path
+                # condition of the path that executes the statement
+                q = self.fresh('div_q', 64); r = self.fresh('div_r', 64)
+                ac = abs(cv)
+                if sg:
+                    # 64-bit equation; q is bounded so that q*c cannot wrap, and r carries the sign of a (or is 0), so q*c + r cannot wrap either
+                    facts = [a == q * BitVecVal(cv, 64) + r, q >= -((1 << 63) // ac), q <= ((1 << 63) - 1) // ac, r > -ac, r < ac, Or(r == 0, (r < 0) == (a < 0))]
+                else:
+                    facts = [a == q * BitVecVal(cv, 64) + r, ULE(q, BitVecVal(((1 << 64) - 1) // cv, 64)), ULT(r, c)]
+                self._pending_assumes.extend(facts)
+                return q if op == 'Div' else r
         if op == 'Div': return (a / b) if sg else UDiv(a, b)
         if op == 'Rem': return SRem(a, b) if sg else URem(a, b)
         if op == 'AddWithOverflow':
@@ -766,6 +784,8 @@ class Exec:
                 if ps[0] == 'assign': self.write(fr, ps[1], self.rvalue(fr, ps[2], ps[1]))
                 elif ps[0] == 'setdiscr': self.set_discr(fr, ps[1], ps[2])
                 elif ps[0] == 'assume': p.pc.append(self.operand(fr, ps[1]))
+                if self._pending_assumes:
+                    p.pc.extend(self._pending_assumes); self._pending_assumes = []
             t = tm[0]
             if t == 'goto':
                 fr.bb = tm[1]; continue
